@@ -250,6 +250,8 @@ class CookieJar(AbstractCookieJar):
             self._delete_cookies(to_del)
 
     def clear_domain(self, domain: str) -> None:
+        # Stored domains are lower-case and have no leading dot
+        domain = domain.lower().removeprefix(".")
         self.clear(lambda x: self._is_domain_match(domain, x["domain"]))
 
     def __iter__(self) -> "Iterator[Morsel[str]]":
